@@ -203,7 +203,6 @@ def c06_with_ref(ch: int, n1: int, n2: int, a0: int, a1: int, b0: int, b1: int) 
     else:
         q1 = InputQuestion(name="q1", type="text", label={"L1": t})
     survey.add_child(q1)
-    shims.s3_prefill_xpath(survey)
     root = survey.xml()
     if ch == 0:
         el = [e for e in elements(root, "input") if e.getAttribute("ref") == "/data/q1"][0].getElementsByTagName("label")[0]
